@@ -12,31 +12,43 @@ use std::future::Future;
 use std::io::Write;
 use std::pin::Pin;
 use std::sync::atomic::{AtomicUsize, Ordering};
-use std::sync::Arc;
-use std::task::{Context, Poll, Wake, Waker};
+use std::task::{Context, Poll, RawWaker, RawWakerVTable, Waker};
 
 type B<T> = ConcurrentMutRingBuf<HeapStorage<T>>;
 
 static WAKES: AtomicUsize = AtomicUsize::new(0);
-struct TaskWake;
-impl Wake for TaskWake { fn wake(self: Arc<Self>) { WAKES.fetch_add(1, Ordering::SeqCst); } }
 
-/// wakers per (task, stage); the one registered in iterator `k` is the one with an extra reference
-struct Wakers { v: Vec<[Arc<TaskWake>; 3]>, w: Vec<[Waker; 3]> }
+/// hand-made wakers: one per (task, stage); clones and drops are counted (so the waker registered in an iterator is
+/// observable) and every clone is logged as a `reg` marker in the atomic-event log (program order of the registration)
+struct WCell { refs: std::cell::Cell<isize> }
+unsafe fn w_clone(p: *const ()) -> RawWaker {
+    let c = &*(p as *const WCell); c.refs.set(c.refs.get() + 1);
+    hooks::event(hooks::Kind::BufAlloc, usize::MAX);
+    RawWaker::new(p, &VTABLE)
+}
+unsafe fn w_wake(p: *const ()) { WAKES.fetch_add(1, Ordering::SeqCst); w_drop(p) }
+unsafe fn w_wake_ref(_p: *const ()) { WAKES.fetch_add(1, Ordering::SeqCst); }
+unsafe fn w_drop(p: *const ()) { let c = &*(p as *const WCell); c.refs.set(c.refs.get() - 1); }
+static VTABLE: RawWakerVTable = RawWakerVTable::new(w_clone, w_wake, w_wake_ref, w_drop);
+
+struct Wakers { cells: Vec<[&'static WCell; 3]>, w: Vec<[Waker; 3]> }
 impl Wakers {
-    fn new() -> Self { Wakers { v: vec![], w: vec![] } }
-    fn get(&mut self, task: usize, k: usize) -> Waker {
-        while self.v.len() <= task {
-            let a = [Arc::new(TaskWake), Arc::new(TaskWake), Arc::new(TaskWake)];
-            self.w.push([Waker::from(a[0].clone()), Waker::from(a[1].clone()), Waker::from(a[2].clone())]);
-            self.v.push(a);
+    fn new() -> Self { Wakers { cells: vec![], w: vec![] } }
+    fn get(&mut self, task: usize, k: usize) -> &Waker {
+        while self.cells.len() <= task {
+            let mk = || -> &'static WCell { Box::leak(Box::new(WCell { refs: std::cell::Cell::new(1) })) };
+            let c = [mk(), mk(), mk()];
+            self.w.push([unsafe { Waker::from_raw(RawWaker::new(c[0] as *const WCell as *const (), &VTABLE)) },
+                         unsafe { Waker::from_raw(RawWaker::new(c[1] as *const WCell as *const (), &VTABLE)) },
+                         unsafe { Waker::from_raw(RawWaker::new(c[2] as *const WCell as *const (), &VTABLE)) }]);
+            self.cells.push(c);
         }
-        self.w[task][k].clone()
+        &self.w[task][k]
     }
-    /// which task's waker does iterator k hold? (baseline: our Arc + our Waker = 2 references)
+    /// which task's waker does iterator k hold? (baseline: the one reference we keep)
     fn registered(&self, k: usize) -> String {
         let mut r = vec![];
-        for (t, a) in self.v.iter().enumerate() { if Arc::strong_count(&a[k]) > 2 { r.push(t.to_string()); } }
+        for (t, c) in self.cells.iter().enumerate() { if c[k].refs.get() > 1 { r.push(t.to_string()); } }
         if r.is_empty() { "-".into() } else { r.join("+") }
     }
 }
@@ -84,7 +96,7 @@ impl<T: Item + ItemA + 'static, const WK: bool> Sess<T, WK> {
             opt(a.map(|x| x.0)), opt(b.map(|x| x.0)), opt(c.map(|x| x.0)), ps, al, opt(a.map(|x| x.1)), opt(b.map(|x| x.1)), opt(c.map(|x| x.1)),
             wk(0, a.is_some()), wk(1, b.is_some()), wk(2, c.is_some()), WAKES.load(Ordering::SeqCst))
     }
-    fn base(&self) -> *const T { slot_obs!(&self.p).or(slot_obs!(&self.w)).or(slot_obs!(&self.c)).unwrap().3 as *const T }
+    fn base(&self) -> *const T { let was = log_is_on(); log_off(); let r = slot_obs!(&self.p).or(slot_obs!(&self.w)).or(slot_obs!(&self.c)).unwrap().3 as *const T; if was { log_on(); } r }
     fn off(&self, p: *const T) -> usize { (p as usize - self.base() as usize) / std::mem::size_of::<T>() }
     fn fmt(&self, r: Raw<T>, name: &str) -> String {
         match r {
@@ -179,7 +191,7 @@ impl<T: Item + ItemA + 'static, const WK: bool> Sess<T, WK> {
                     let k = kidx(words[1]);
                     match self.held[k].take() { Some(f) => (k, f, "held".to_string()), None => return bad }
                 };
-                let w = self.wakers.get(self.task, k);
+                let w = self.wakers.get(self.task, k).clone_quiet();
                 let polled = std::panic::catch_unwind(std::panic::AssertUnwindSafe(|| f(&w)));
                 let polled = match polled { Ok(x) => x, Err(_) => { EXPECT_DROP.with(|c| c.set(true)); drop(f); EXPECT_DROP.with(|c| c.set(false)); return "panic".into(); } };
                 match polled {
@@ -193,7 +205,7 @@ impl<T: Item + ItemA + 'static, const WK: bool> Sess<T, WK> {
                     // future: create, poll once, drop
                     if !self.here(k) || self.is_det(k) || !self.free(k) || !T::supports(words[0]) { return bad; }
                     let (k, mut f) = match self.make_future(words) { Some(x) => x, None => return bad };
-                    let w = self.wakers.get(self.task, k);
+                    let w = self.wakers.get(self.task, k).clone_quiet();
                     let r = std::panic::catch_unwind(std::panic::AssertUnwindSafe(|| f(&w)));
                     EXPECT_DROP.with(|c| c.set(true)); drop(f); EXPECT_DROP.with(|c| c.set(false));
                     let r = match r { Ok(x) => x, Err(_) => return "panic".into() };
@@ -230,7 +242,7 @@ impl<T: Item + ItemA + 'static, const WK: bool> Sess<T, WK> {
             "poke" | "pokeinit" | "edit" => {
                 if words[0] == "edit" && T::OWNED { return bad; }
                 let off = num(2); let v: u64 = words[3].parse().unwrap();
-                let ix = match k { 0 => slot_obs!(&self.p), 1 => slot_obs!(&self.w), _ => slot_obs!(&self.c) }.unwrap().0;
+                log_off(); let ix = match k { 0 => slot_obs!(&self.p), 1 => slot_obs!(&self.w), _ => slot_obs!(&self.c) }.unwrap().0; log_on();
                 let mut i = ix + off; if i >= self.len { i -= self.len; }
                 let p = unsafe { (self.base() as *mut T).add(i) };
                 match words[0] {
@@ -248,6 +260,9 @@ impl<T: Item + ItemA + 'static, const WK: bool> Sess<T, WK> {
 }
 
 fn stat<A>(b: &mut Box<A>) -> &'static mut A { unsafe { &mut *(&mut **b as *mut A) } }
+
+trait CloneQuiet { fn clone_quiet(&self) -> Waker; }
+impl CloneQuiet for Waker { fn clone_quiet(&self) -> Waker { let was = log_is_on(); log_off(); let w = self.clone(); if was { log_on(); } w } }
 
 struct SrcGuard<T: Item>(*mut Vec<T>);
 impl<T: Item> Drop for SrcGuard<T> { fn drop(&mut self) { let v = unsafe { Box::from_raw(self.0) }; for x in *v { x.dispose(); } } }
@@ -286,22 +301,40 @@ impl ItemA for Owned {
     fn extract_slice_fut<const W: bool>(a: &'static mut AsyncConsIter<'static, B<Self>, W>, d: &'static mut [Self], _name: &str) -> Pin<Box<dyn Future<Output = Option<()>>>> { Box::pin(a.clone_slice(d)) }
 }
 
-fn emit(out: &mut impl Write, res: &str, obs: &str) {
+static LOGGER: std::sync::OnceLock<std::sync::Arc<Logger>> = std::sync::OnceLock::new();
+fn logger() -> &'static Logger { LOGGER.get().unwrap() }
+fn log_on() { logger().enabled.store(true, Ordering::Relaxed); }
+fn log_off() { logger().enabled.store(false, Ordering::Relaxed); }
+fn log_is_on() -> bool { logger().enabled.load(Ordering::Relaxed) }
+
+fn emit(out: &mut impl Write, res: &str, obs: &str, at: &str) {
     let ev = take_events();
-    writeln!(out, "{} | {} | ev={}", res, obs, ev.join(",")).unwrap();
+    writeln!(out, "{} | {} | ev={} | at={}", res, obs, ev.join(","), at).unwrap();
     out.flush().unwrap();
 }
 
 fn run_session<T: Item + ItemA + 'static, const WK: bool>(mut s: Sess<T, WK>, lines: &[String], pos: &mut usize, out: &mut impl Write) {
-    emit(out, "init ok", &s.obs());
+    let mut names = std::collections::HashMap::new();
+    logger().log.lock().unwrap().clear();
+    log_on();
+    if let Slot::Att(p) = &s.p { p.prod_index(); p.work_index(); p.cons_index(); p.is_prod_alive(); }
+    log_off();
+    { let mut l = logger().log.lock().unwrap(); for (e, n) in l.iter().zip(['P', 'W', 'C', 'A']) { names.insert(e.addr, n); } l.clear(); }
+    names.insert(usize::MAX, 'R');
+    emit(out, "init ok", &s.obs(), "");
     while *pos < lines.len() {
         let l = lines[*pos].trim().to_string();
         if l.starts_with("cfg") || l.starts_with('#') { break; }
         *pos += 1;
         if l.is_empty() { continue; }
         let words: Vec<&str> = l.split_whitespace().collect();
+        logger().log.lock().unwrap().clear();
+        log_on();
         let r = s.step(&words);
-        emit(out, &r, &s.obs());
+        log_off();
+        let evs = std::mem::take(&mut *logger().log.lock().unwrap());
+        let at = render_events(&evs, &names, None).replace("alloc", "reg");
+        emit(out, &r, &s.obs(), &at);
     }
     // pending futures are dropped by the caller first
     EXPECT_DROP.with(|c| c.set(true));
@@ -337,6 +370,7 @@ fn main() {
     let stdout = std::io::stdout();
     let mut out = std::io::BufWriter::new(stdout.lock());
     std::panic::set_hook(Box::new(|_| {}));
+    let _ = LOGGER.set(install_logger());
     for f in &args[1..] {
         let text = std::fs::read_to_string(f).unwrap();
         let lines: Vec<String> = text.lines().map(|s| s.to_string()).collect();
